@@ -44,3 +44,4 @@ package object
 //@ func Object.Rect
 //@   assumed
 //@   modifies nothing
+//@   ensures result.Min.X == gMinX(objGeo(o)) && result.Min.Y == gMinY(objGeo(o)) && result.Max.X == gMaxX(objGeo(o)) && result.Max.Y == gMaxY(objGeo(o))
